@@ -582,9 +582,34 @@ Definition remove_last_filter (x : bytes) : bytes :=
   | [] => x
   end.
 
-(* What New*StreamReader derives from the xpath text: the text used for the candidate check and
-   whether a closing filter check is installed (xpathStr != xpathNoFilterStr). *)
-Definition split_filter (x : bytes) : bytes * bool :=
+(* removeTrailingFiltersInXPath (F21 repair): strip the last filter of the right-trimmed text until
+   nothing changes.  The Go loop is unbounded; here it is fuelled (None = out of fuel), and the
+   fuel given by [remove_trailing_filters] is never exhausted (Proofs: rtf_fuel_enough). *)
+Definition is_ws (c : byte) : bool :=
+  Byte.eqb c x20 || Byte.eqb c x09 || Byte.eqb c x0d || Byte.eqb c x0a.
+Fixpoint drop_ws (l : list byte) : list byte :=
+  match l with
+  | c :: r => if is_ws c then drop_ws r else l
+  | [] => []
+  end.
+Definition trim_right (x : bytes) : bytes := rev (drop_ws (rev x)).
+Fixpoint rtf (fuel : nat) (x : bytes) : option bytes :=
+  match fuel with
+  | O => None
+  | S n => let removed := remove_last_filter (trim_right x) in
+           if bytes_eqb removed x then Some x else rtf n removed
+  end.
+Definition remove_trailing_filters (x : bytes) : option bytes := rtf (S (S (List.length x))) x.
+
+(* What New*StreamReader derives from the (already trimmed) xpath text: the text used for the
+   candidate check and whether a closing check is installed (xpathStr != xpathNoFilterStr). *)
+Definition split_filter (x : bytes) : option (bytes * bool) :=
+  match remove_trailing_filters x with
+  | Some nf => Some (nf, negb (bytes_eqb x nf))
+  | None => None
+  end.
+(* before the F21 repair: only the last filter was stripped *)
+Definition split_filter_old (x : bytes) : bytes * bool :=
   let nf := remove_last_filter x in (nf, negb (bytes_eqb x nf)).
 
 (* ---- correspondence cases ---------------------------------------------------------------------- *)
@@ -620,20 +645,20 @@ Definition xtoken_eqb (a b : xtoken) : bool :=
 
 Definition check_xcase (c : xcase) : bool :=
   let tg := xc_target c in
-  let '(nf, hasf) := split_filter (xc_xpath c) in
+  match split_filter (xc_xpath c) with None => false | Some (nf, hasf) =>
   (* the tokenizer model: the token stream is the one the document determines *)
   list_eqb xtoken_eqb (xdoc_events (xc_doc c)) (xc_tokens c)
   (* the target term and the xpath text are the same target; the split is the code's split *)
   && bytes_eqb (render_target tg) (xc_xpath c)
-  && bytes_eqb nf (render_steps (t_steps tg) ++ render_filters (removelast (t_filters tg)))
+  && bytes_eqb nf (render_steps (t_steps tg))
   && Bool.eqb hasf (negb (match t_filters tg with [] => true | _ => false end))
   (* the reader model, run on the same tokens, delivers the same snapshots *)
   && (let pm := pm_of tg in
-      (* candidate check: the path part plus all but the last filter (what the code strips) *)
       let '(ds, fin) := xrun pm (pred_target tg) hasf false x_init (xc_rel c) (xc_tokens c) in
       list_eqb deliv_eqb ds (xc_deliv c) && fin_matches fin (xc_fin c)
       (* and, redundantly with the theorem, whole-document selection on the model side *)
-      && list_eqb tree_eqb (map fst ds) (whole_doc_selection pm (pred_target tg) (xdoc_tree (xc_doc c)))).
+      && list_eqb tree_eqb (map fst ds) (whole_doc_selection pm (pred_target tg) (xdoc_tree (xc_doc c))))
+  end.
 
 Record jcase := mkJCase {
   jc_doc : jnode;
@@ -656,16 +681,17 @@ Definition jtoken_eqb (a b : jtoken) : bool :=
 
 Definition check_jcase (c : jcase) : bool :=
   let tg := jc_target c in
-  let '(nf, hasf) := split_filter (jc_xpath c) in
+  match split_filter (jc_xpath c) with None => false | Some (nf, hasf) =>
   jwf (jc_doc c)
   && list_eqb jtoken_eqb (jdoc_events (jc_doc c)) (jc_tokens c)
   && bytes_eqb (render_target tg) (jc_xpath c)
-  && bytes_eqb nf (render_steps (t_steps tg) ++ render_filters (removelast (t_filters tg)))
+  && bytes_eqb nf (render_steps (t_steps tg))
   && Bool.eqb hasf (negb (match t_filters tg with [] => true | _ => false end))
   && (let pm := pm_of tg in
       let '(ds, fin) := jrun pm (pred_target tg) hasf false j_init (jc_rel c) (jc_tokens c) in
       list_eqb deliv_eqb ds (jc_deliv c) && fin_matches fin (jc_fin c)
-      && list_eqb tree_eqb (map fst ds) (whole_doc_selection pm (pred_target tg) (jdoc_tree (jc_doc c)))).
+      && list_eqb tree_eqb (map fst ds) (whole_doc_selection pm (pred_target tg) (jdoc_tree (jc_doc c))))
+  end.
 
 Inductive c04case := XCase (c : xcase) | JCase (c : jcase).
 Definition check_case (c : c04case) : bool :=
